@@ -11,7 +11,7 @@ import (
 func selfTest(ctx *core.Ctx) error {
 	// (i) corrupt one field of real records
 	h := history{{K: "stream", O: []string{"def", "defc", "freer"}}, {K: "hybrid", O: []string{"freeb", "keep", "hdef"}}, {K: "table", O: []string{"def", "freer", "keep"}}}
-	c := histCase{"hist", h, 11, 12}
+	c := histCase{Kind: "hist", H: h, CSeed: 11, RSeed: 12}
 	good, res, err := runHist(c)
 	if err != nil {
 		return core.Infra("self-test: %v", err)
@@ -39,6 +39,20 @@ func selfTest(ctx *core.Ctx) error {
 	}
 	lbad := lgood
 	lbad.Got--
+	// an encrypted rendering: a string that comes back undecrypted shows as a
+	// value no revision wrote
+	hk := history{{K: "table", O: []string{"def", "def"}}, {K: "stream", O: []string{"freeb", "defc"}}, {K: "table", O: []string{"def", "keep"}}}
+	egood, _, err := runHist(histCase{Kind: "hist", H: hk, CSeed: 21, RSeed: 22, Crypt: "aesv2"})
+	if err != nil {
+		return core.Infra("self-test: %v", err)
+	}
+	ebad := egood
+	ebad.Probes = append([][3]int(nil), egood.Probes...)
+	for i, p := range ebad.Probes {
+		if p[0] == 1 && p[1] == 1 {
+			ebad.Probes[i][2] = -2 // object 1 (generation 1) read with the wrong key
+		}
+	}
 	// a file as seen by the strict parser, intact and with one object moved
 	fgood, err := strict.Parse(res.Bytes)
 	if err != nil {
@@ -49,12 +63,12 @@ func selfTest(ctx *core.Ctx) error {
 	o0 := jbad["objects"].([]any)[0].(map[string]any)
 	o0["off"] = o0["off"].(int64) + 1
 	recs := []any{good, stale, good, oldTrailer, notOpen, resurrect, lgood, lbad,
-		map[string]any{"t": "file", "file": jgood}, map[string]any{"t": "file", "file": jbad}}
+		map[string]any{"t": "file", "file": jgood}, map[string]any{"t": "file", "file": jbad}, egood, ebad}
 	bad, err := core.JudgeCases(ctx, tlcOpts(), recs, 20, 1)
 	if err != nil {
 		return err
 	}
-	want := []int{1, 3, 4, 5, 7, 9}
+	want := []int{1, 3, 4, 5, 7, 9, 11}
 	if len(bad) != len(want) {
 		return core.Infra("self-test: corrupted records not singled out: %v, want %v", bad, want)
 	}
@@ -63,7 +77,7 @@ func selfTest(ctx *core.Ctx) error {
 			return core.Infra("self-test: corrupted records not singled out: %v, want %v", bad, want)
 		}
 	}
-	ctx.Logf("self-test (i): corrupted records rejected (stale value, old trailer, open failure, resurrected object, wrong extent, file with an entry off by one), intact ones accepted")
+	ctx.Logf("self-test (i): corrupted records rejected (stale value, old trailer, open failure, resurrected object, wrong extent, file with an entry off by one, encrypted object read with the wrong key), intact ones accepted")
 
 	// (ii) negative controls of the design model
 	r1, err := ctx.TLC(core.TLCOpts{Dir: specDir, Module: "MC_XRefHistory", Cfg: "MC_XRefHistory_ascoded.cfg", Workers: 8, Mode: "negative-control", XssMB: 512})
@@ -87,7 +101,16 @@ func selfTest(ctx *core.Ctx) error {
 	if r3.Invariant != "ExtentOK" {
 		return core.Infra("self-test: a null /Length taken as 0 (the code before 8dab642) should violate ExtentOK, got %q", r3.Invariant)
 	}
-	ctx.Logf("self-test (ii): offByOne tolerance violates LookupOK; strict reading of the length clause and null-length-as-0 violate ExtentOK in the model")
+	for _, nc := range []string{"keygen0", "decmembers"} {
+		r, err := ctx.TLC(core.TLCOpts{Dir: specDir, Module: "MC_XRefHistory", Cfg: "MC_XRefHistory_" + nc + ".cfg", Workers: 8, Mode: "negative-control", XssMB: 512})
+		if err != nil {
+			return err
+		}
+		if r.Invariant != "LookupOK" {
+			return core.Infra("self-test: the defective key scope %s should violate LookupOK, got %q", nc, r.Invariant)
+		}
+	}
+	ctx.Logf("self-test (ii): offByOne tolerance violates LookupOK; strict reading of the length clause and null-length-as-0 violate ExtentOK; object key with generation 0 and decrypted object-stream members violate LookupOK in the model")
 
 	// (iii) a wrong expectation in a table line
 	exp := append([][3]int(nil), good.Probes...)
